@@ -24,6 +24,7 @@ func runC07(ctx *Ctx) {
 	ruleRefWriters(ctx, "C07-R1")
 	ruleTableEntryNil(ctx, "C07-R2", "rpc")
 	ruleReleaseMessage(ctx, "C07-R3")
+	ruleImportRemovedInSameSection(ctx, "C07-R3b")
 	ruleAddRefOwnership(ctx, "C07-R4")
 	ruleTeardown(ctx, "C07-R5")
 	ruleFinishAccounting(ctx, "C07-R6")
@@ -463,16 +464,7 @@ func ruleAddRefOwnership(ctx *Ctx, rule string) {
 		if top == nil {
 			continue
 		}
-		var relObj types.Object
-		if top.Type != nil && top.Type.Params != nil {
-			for _, f := range top.Type.Params.List {
-				for _, nm := range f.Names {
-					if nm.Name == h.param {
-						relObj = top.Pkg.TypesInfo.ObjectOf(nm)
-					}
-				}
-			}
-		}
+		relObj := paramByRefName(top, h.param)
 		if relObj == nil {
 			r.Fail("%s: %s has no parameter %s", rule, h.fn, h.param)
 			continue
@@ -649,7 +641,7 @@ func ruleFinishAccounting(ctx *Ctx, rule string) {
 				okp := false
 				for _, at := range ssaq.Atoms(ssaq.Guards(b)) {
 					if at.Op == token.ILLEGAL && at.True {
-						if p, ok := at.Val.(*ssa.Parameter); ok && p.Name() == "releaseResultCaps" {
+						if p, ok := at.Val.(*ssa.Parameter); ok && ssaq.ParamRefName(p) == "releaseResultCaps" {
 							okp = true
 						}
 					}
@@ -730,16 +722,7 @@ func ruleCountingPaths(ctx *Ctx, rule string) {
 	}
 	if u := mustUnit(ctx, a, rule, "rpc.(*Conn).handleFinish"); u != nil {
 		info := u.Pkg.TypesInfo
-		var param types.Object
-		if u.Type.Params != nil {
-			for _, fl := range u.Type.Params.List {
-				for _, nm := range fl.Names {
-					if nm.Name == "releaseResultCaps" {
-						param = info.Defs[nm]
-					}
-				}
-			}
-		}
+		param := paramByRefName(u, "releaseResultCaps")
 		if param == nil {
 			ctx.Rep.Fail("%s: handleFinish has no releaseResultCaps parameter", rule)
 			return
